@@ -4,6 +4,8 @@ import ast
 from ..astutil import make_cfg, call_name, fn_calls, must_pass, node_calls, walk_no_nested, kwarg
 from ..absval import WidthAnalysis, B, NONE
 from ..minieval import ev, truth, UNK
+from .. import sym
+from ..astutil import strip_doc
 from ..loader import is_unknown
 from .. import cmddict
 
@@ -215,30 +217,25 @@ def check(ctx):
     ctx.clause = "3-vendor-length"
     lg = avp.props.get("length", {}).get("get")
     ctx.need(lg, "DiameterAVP.length getter")
+    D = sym.S("int:D")
+    len_data = ("call", ("name", "len"), (("attr", ("name", "self"), "data"),), ())
+    it = sym.Interp(fold=lambda e: repo.fold(avp.mod, e), hook=lambda t: D if t == len_data else None)
     found = {}
-    for n in walk_no_nested(lg):
-        if isinstance(n, ast.If):
-            g = ast.unparse(n.test)
-
-            def added(stmts):
-                out = []
-                for s in stmts:
-                    if isinstance(s, ast.AugAssign) and isinstance(s.op, ast.Add):
-                        out.append(repo.fold(avp.mod, s.value))
-                    elif isinstance(s, ast.Assign) and isinstance(s.value, ast.BinOp) and isinstance(s.value.op, ast.Add):
-                        out.append(repo.fold(avp.mod, s.value.right))
-                return out
-            a, b = added(n.body), added(n.orelse)
-            if a and b:
-                found[g] = (a, b)
+    for p_ in it.run(strip_doc(lg.body)):
+        if p_.term != "return" or any(isinstance(c[0], tuple) and c[0][0] == "exc" for c in p_.conds):
+            continue
+        v = p_.value
+        arg = v[2][0] if isinstance(v, tuple) and v and v[0] == "call" and len(v[2]) == 1 else v
+        d = sym.add(arg, D, -1)
+        found[tuple(sorted((sym.show(c), tv) for c, tv in p_.conds))] = d if sym.is_int(d) else sym.show(arg)
     dump_guard = None
     for t, g in (order or []):
         if t == "self.vendor_id":
             dump_guard = g
-    ok = dump_guard in found and found[dump_guard] == ([12], [8])
+    ok = found == {((dump_guard, True),): 12, ((dump_guard, False),): 8}
     ctx.decide(ok, "R-DOM/vendor-length", f"{avp.qual}.length", avp.where(lg),
                "length adds 12 exactly under the predicate that emits the Vendor-ID, 8 otherwise",
-               f"AVP Length adds {found} while dump() emits the Vendor-ID under `{dump_guard}`: the length field and the "
+               f"AVP Length adds {found} to len(data) while dump() emits the Vendor-ID under `{dump_guard}`: the length field and the "
                f"emitted header disagree for some AVP", key="coupling")
     dep = any(isinstance(n, ast.Attribute) and n.attr in ("padding", "_padding", "get_padding_length") for n in ast.walk(lg))
     ctx.decide(not dep, "R-FLOW/length-no-padding", f"{avp.qual}.length", avp.where(lg), "length does not depend on padding",
@@ -279,12 +276,15 @@ def check(ctx):
                    f"{ci.name}.{name} returns {rets}: the length used by the bookkeeping is not the big-endian value of the length field",
                    key=name)
     gp = ctx.need(avp.methods.get("get_padding_length"), "DiameterAVP.get_padding_length")
-    okp = False
-    for iff in [x for x in walk_no_nested(gp) if isinstance(x, ast.If)]:
-        if ast.unparse(iff.test) in ("self.padding", "self.padding is not None"):
-            rr = [ast.unparse(s.value) for s in iff.body if isinstance(s, ast.Return) and s.value is not None]
-            okp = rr == ["len(self.padding)"]
-    tail = [ast.unparse(n.value) for n in gp.body if isinstance(n, ast.Return) and n.value is not None]
+    rows = set()
+    for p_ in sym.Interp().run(strip_doc(gp.body)):
+        tv = p_.cond_truth(lambda t: sym.show(t) in ("self.padding", "(self.padding Is None)"))
+        if tv is not None and any(sym.show(c) == "(self.padding Is None)" for c, _ in p_.conds):
+            tv = not tv
+        rows.add((tv, sym.show(p_.value) if p_.term == "return" and p_.value is not None else "None"))
+    okp = (True, "len(self.padding)") in rows and len(rows) == 2
+    tail = [[r[1]] for r in rows if r[0] is False][:1]
+    tail = tail[0] if tail else []
     ctx.decide(okp and tail in (["None"], ["0"]), "R-SIB/accessor", f"{avp.qual}.get_padding_length", avp.where(gp),
                "get_padding_length is len(padding) when there is padding, else nothing",
                "get_padding_length does not return len(self.padding) (None/0 without padding): Message Length bookkeeping and dump() "
@@ -340,98 +340,134 @@ def check(ctx):
                        f"under a Message Length that counts 20", key="application_id")
 
 
+def _slice_term(repo, mod, t):
+    """stream[a:b] -> (a,b); convert_to_1_byte(stream[i]) -> (i,i+1)   (terms of bsa.sym)"""
+    if isinstance(t, tuple) and t and t[0] == "slice" and sym.is_int(t[2]) and sym.is_int(t[3]):
+        return (t[2], t[3])
+    if isinstance(t, tuple) and t and t[0] == "call" and t[1][0] == "name" and len(t[2]) == 1:
+        w = repo.helper_width(mod, t[1][1])
+        inner = t[2][0]
+        if w and w[0] == 1 and isinstance(inner, tuple) and inner[0] == "sub" and sym.is_int(inner[2]):
+            return (inner[2], inner[2] + 1)
+    return None
+
+
 def _header_load(ctx, repo, hdr, ld):
-    """slices of `stream` feeding cls(<field>=...) must be contiguous, cover [0,20) with the setter widths in order."""
-    env = {}
-    for s in ld.body:
-        if isinstance(s, ast.Assign) and len(s.targets) == 1 and isinstance(s.targets[0], ast.Name):
-            env[s.targets[0].id] = s.value
-    ret = [n for n in walk_no_nested(ld) if isinstance(n, ast.Return) and isinstance(n.value, ast.Call)]
-    if not ret:
-        ctx.undecided("R-TABLE/layout", f"{hdr.qual}.load", hdr.where(ld), "no constructor call returned", key="load")
+    """the slices of the stream feeding cls(<field>=...) must be contiguous and cover [0,20) with the setter widths in order.
+    Decided on the terms the constructor call receives, so temporaries and spelling do not matter."""
+    it = sym.Interp(fold=lambda e: repo.fold(hdr.mod, e))
+    rets = [p_ for p_ in it.run(strip_doc(ld.body)) if p_.term == "return"]
+    rets = [p_ for p_ in rets if isinstance(p_.value, tuple) and p_.value and p_.value[0] == "call"]
+    if len(rets) != 1:
+        ctx.undecided("R-TABLE/layout", f"{hdr.qual}.load", hdr.where(ld), f"{len(rets)} constructor calls returned", key="load")
         return
-    call = ret[0].value
-    got = {}
-    for k in call.keywords:
-        v = k.value
-        if isinstance(v, ast.Name) and v.id in env:
-            v = env[v.id]
-        got[k.arg] = _slice_of(repo, hdr.mod, v)
+    got = {k: _slice_term(repo, hdr.mod, v) for k, v in rets[0].value[3]}
     pos = 0
-    ok_all = True
     for f, w in HDR:
         sl = got.get(f)
-        ok = sl == (pos, pos + w)
-        ok_all = ok_all and ok
-        ctx.decide(ok, "R-TABLE/layout", f"{hdr.qual}.load", hdr.where(ld), f"{f} <- stream[{pos}:{pos+w}]",
+        ctx.decide(sl == (pos, pos + w), "R-TABLE/layout", f"{hdr.qual}.load", hdr.where(ld), f"{f} <- stream[{pos}:{pos+w}]",
                    f"{f} is read from stream{list(sl) if sl else sl} but dump() writes it at [{pos}:{pos+w}]", key=f"load:{f}")
         pos += w
 
 
-def _slice_of(repo, mod, v):
-    """stream[a:b] -> (a,b); convert_to_1_byte(stream[i]) -> (i,i+1)"""
-    if isinstance(v, ast.Call) and isinstance(v.func, ast.Name) and len(v.args) == 1:
-        w = repo.helper_width(mod, v.func.id)
-        if w and w[0] == 1:
-            inner = v.args[0]
-            if isinstance(inner, ast.Subscript) and not isinstance(inner.slice, ast.Slice):
-                i = repo.fold(mod, inner.slice)
-                if isinstance(i, int):
-                    return (i, i + 1)
-    if isinstance(v, ast.Subscript) and isinstance(v.slice, ast.Slice):
-        a = repo.fold(mod, v.slice.lower) if v.slice.lower is not None else 0
-        b = repo.fold(mod, v.slice.upper) if v.slice.upper is not None else None
-        if isinstance(a, int) and isinstance(b, int):
-            return (a, b)
-    return None
+def avp_loop_paths(repo, avp, ld, residue=None):
+    """One iteration of the AVP reader loop as term paths.  I = index at the AVP start, L = the integer read from
+    the length field (any int.from_bytes / convert_to_integer_from_bytes of stream[I+5:I+8]); with `residue`
+    the assumption L % 4 == residue is applied.  -> (loop, paths, index name, object name)"""
+    loops = [n for n in walk_no_nested(ld) if isinstance(n, ast.While)]
+    if not loops:
+        return None
+    loop = loops[0]
+    idx = None
+    for n in ast.walk(loop.test):
+        if isinstance(n, ast.Name) and any(isinstance(x, (ast.Assign, ast.AugAssign)) and any(
+                isinstance(t, ast.Name) and t.id == n.id for t in (x.targets if isinstance(x, ast.Assign) else [x.target]))
+                for x in ast.walk(loop)):
+            idx = n.id
+    if idx is None:
+        return None
+    I, L = sym.S("int:I"), sym.S("int:L")
+
+    def hook(t):
+        if isinstance(t, tuple) and t and t[0] == "call" and len(t[2]) >= 1:
+            f = t[1]
+            if f == ("attr", ("name", "int"), "from_bytes") or (f[0] == "name" and "integer_from_bytes" in f[1]):
+                a = t[2][0]
+                if isinstance(a, tuple) and a[0] == "slice" and a[2] == sym.add(I, 5) and a[3] == sym.add(I, 8):
+                    return L
+        if residue is not None and isinstance(t, tuple) and t and t[0] == "mod" and t[1] == L and t[2] == 4:
+            return residue
+        return None
+    it = sym.Interp(fold=lambda e: repo.fold(avp.mod, e), hook=hook)
+    paths = it.loop_body(loop, {idx: I, "stream": sym.S("stream")})
+    obj = None
+    for p_ in paths:
+        for k in p_.env:
+            if k.endswith("._code") or k.endswith(".code"):
+                obj = k.rsplit(".", 1)[0]
+    return loop, paths, idx, obj
+
+
+def _rel(t, I, L):
+    """offset of a term relative to the AVP start: I + c -> c ; I + L -> 'L' ; I + L + c -> 'L+c'"""
+    if t is None or isinstance(t, (bytes, str)) or sym.lin_coef(t, I) != 1:
+        return None
+    rest = sym.add(t, I, -1)
+    if sym.is_int(rest):
+        return rest
+    if sym.lin_atoms(rest) == {L} and sym.lin_coef(rest, L) == 1:
+        c = sym.lin_const(rest)
+        return "L" if c == 0 else f"L+{c}"
+    return sym.show(rest)
 
 
 def _avp_load_offsets(ctx, repo, avp):
     ld = ctx.need(avp.methods.get("load"), "DiameterAVP.load")
     construct = f"{avp.qual}.load"
-    # offsets relative to `index`
-    offs = {}
+    r = avp_loop_paths(repo, avp, ld)
+    if r is None or r[3] is None:
+        ctx.undecided("R-TABLE/layout", construct, avp.where(ld), "reader loop / index / AVP object not recognised", key="loop")
+        return
+    loop, paths, idx, obj = r
+    I, L = sym.S("int:I"), sym.S("int:L")
+    done = [p_ for p_ in paths if p_.term == "fall" and not any(c[0][0] == "exc" for c in p_.conds if isinstance(c[0], tuple))]
+    if not done:
+        ctx.undecided("R-TABLE/layout", construct, avp.where(ld), "no completing path through the loop body", key="loop")
+        return
 
-    def rel(e):
-        """index + c -> c ; index -> 0 ; index + name -> name"""
-        if isinstance(e, ast.Name) and e.id == "index":
-            return 0
-        if isinstance(e, ast.BinOp) and isinstance(e.op, ast.Add) and isinstance(e.left, ast.Name) and e.left.id == "index":
-            v = repo.fold(avp.mod, e.right)
-            if isinstance(v, int):
-                return v
-            return ast.unparse(e.right)
+    def field(p_, f):
+        t = p_.get(f"{obj}.{f}")
+        if t is None:
+            return "None"
+        if isinstance(t, tuple) and t and t[0] == "slice" and t[1] == sym.S("stream"):
+            return (_rel(t[2], I, L), _rel(t[3], I, L))
+        if isinstance(t, tuple) and t and t[0] == "call" and len(t[2]) == 1 and isinstance(t[2][0], tuple) and t[2][0][0] == "sub"                 and t[2][0][1] == sym.S("stream") and (repo.helper_width(avp.mod, t[1][1]) or (0,))[0] == 1:
+            a = _rel(t[2][0][2], I, L)
+            return (a, a + 1 if isinstance(a, int) else None)
+        return sym.show(t)
+
+    def vflag(p_):
+        for c, v in p_.conds:
+            if "is_vendor_id" in sym.show(c) or "flag_vendor" in sym.show(c) or "128" in sym.show(c):
+                if f"stream[4 + int:I]" in sym.show(c):
+                    return v
         return None
-    for n in walk_no_nested(ld):
-        if isinstance(n, ast.Assign) and len(n.targets) == 1 and isinstance(n.targets[0], ast.Attribute) \
-                and isinstance(n.targets[0].value, ast.Name) and n.targets[0].attr.startswith("_"):
-            f = n.targets[0].attr
-            v = n.value
-            if isinstance(v, ast.Call) and isinstance(v.func, ast.Name) and len(v.args) == 1:
-                v = v.args[0]
-                if isinstance(v, ast.Subscript) and not isinstance(v.slice, ast.Slice) and ast.unparse(v.value) == "stream":
-                    a = rel(v.slice)
-                    offs.setdefault(f, []).append((a, a + 1 if isinstance(a, int) else None))
-                    continue
-            if isinstance(v, ast.Subscript) and isinstance(v.slice, ast.Slice) and ast.unparse(v.value) == "stream":
-                offs.setdefault(f, []).append((rel(v.slice.lower), rel(v.slice.upper)))
-    want = {"_code": [(0, 4)], "_flags": [(4, 5)], "_length": [(5, 8)], "_vendor_id": [(8, 12)],
-            "_data": [(12, "boundary"), (8, "boundary")]}
-    for f, w in want.items():
-        got = offs.get(f)
-        ctx.decide(got is not None and sorted(map(str, got)) == sorted(map(str, w)), "R-TABLE/layout", construct, avp.where(ld),
-                   f"{f} read at offsets {w}",
-                   f"{f} is read at offsets {got} relative to the AVP start; dump() writes it at {w}", key=f"load:{f}")
-    # the vendor branch is chosen by the V flag of the parsed flags
-    iffs = [n for n in walk_no_nested(ld) if isinstance(n, ast.If) and "is_vendor_id" in ast.unparse(n.test)]
-    ok = False
-    for n in iffs:
-        vend_in_body = any(isinstance(x, ast.Assign) and ast.unparse(x.targets[0]).endswith("._vendor_id")
-                           and not (isinstance(x.value, ast.Constant) and x.value.value is None) for x in ast.walk(ast.Module(body=n.body, type_ignores=[])))
-        if vend_in_body and "_flags" in ast.unparse(n.test):
-            ok = True
-    ctx.decide(ok, "R-DOM/layout", construct, avp.where(ld), "Vendor-ID is read iff the V flag of the parsed flags is set",
-               "the Vendor-ID field is not read exactly when the parsed V flag is set", key="vflag")
+    want_fixed = {"_code": (0, 4), "_flags": (4, 5), "_length": (5, 8)}
+    for f, w in want_fixed.items():
+        got = sorted({str(field(p_, f)) for p_ in done})
+        ctx.decide(got == [str(w)], "R-TABLE/layout", construct, avp.where(ld), f"{f} read at offsets {w}",
+                   f"{f} is read at offsets {got} relative to the AVP start; dump() writes it at {list(w)}", key=f"load:{f}")
+    got_v = sorted({(vflag(p_), str(field(p_, "_vendor_id")), str(field(p_, "_data"))) for p_ in done}, key=str)
+    want_v = sorted({(True, str((8, 12)), str((12, "L"))), (False, "None", str((8, "L")))}, key=str)
+    ctx.decide([g[2] for g in got_v] == [w[2] for w in want_v] or {g[2] for g in got_v} == {w[2] for w in want_v} and len(got_v) == 2,
+               "R-TABLE/layout", construct, avp.where(ld), "_data read at [12, L) with Vendor-ID and [8, L) without",
+               f"_data is read at offsets {[g[2] for g in got_v]} relative to the AVP start; dump() writes it at "
+               f"[(12, 'L'), (8, 'L')]", key="load:_data")
+    ctx.decide({g[1] for g in got_v if g[0] is True} == {str((8, 12))} and {g[1] for g in got_v if g[0] is False} == {"None"},
+               "R-TABLE/layout", construct, avp.where(ld), "_vendor_id read at [8, 12) when flagged",
+               f"_vendor_id is read as {[(g[0], g[1]) for g in got_v]} (V flag, offsets); dump() writes it at [8, 12)", key="load:_vendor_id")
+    ctx.decide(got_v == want_v, "R-DOM/layout", construct, avp.where(ld), "Vendor-ID is read iff the V flag of the parsed flags is set",
+               f"the Vendor-ID field is not read exactly when the parsed V flag is set: (V flag, vendor, data) = {got_v}", key="vflag")
 
 
 def _padding(ctx, repo, avp):
@@ -468,37 +504,36 @@ def _padding(ctx, repo, avp):
                     ctx.decide(ok, "R-RES4", construct, ci.where(fn), f"len%4={r}: padding {p}",
                                f"for len(data) % 4 == {r} the padding is {val!r}: (r + p) % 4 != 0 or p >= 4 - the AVP is not "
                                f"padded to a 4-octet boundary with fewer than 4 zero octets", key=f"res:{r}")
-    # reader
+    # reader: for every residue of the length the index advances to the next 4-octet boundary after the AVP
     ld = avp.methods.get("load")
-    loop = next((s for s in ld.body if isinstance(s, ast.While)), None)
-    if loop is None:
-        ctx.undecided("R-RES4", f"{avp.qual}.load", avp.where(ld), "no loop", key="loop")
-        return
-    # statements of the loop body that define `padding`
-    pstmts = [s for s in loop.body if any(isinstance(n, ast.Name) and n.id == "padding" and isinstance(n.ctx, ast.Store)
-                                          for n in ast.walk(s))]
+    I, L = sym.S("int:I"), sym.S("int:L")
     for r in range(4):
-        def special(e, r=r):
-            if isinstance(e, ast.BinOp) and isinstance(e.op, ast.Mod) and ast.unparse(e.left) == "boundary" \
-                    and isinstance(e.right, ast.Constant) and e.right.value == 4:
-                return r
-            return NotImplemented
-        for env, term, val in run_paths(pstmts, {}, special, fold):
+        lp = avp_loop_paths(repo, avp, ld, residue=r)
+        if lp is None:
+            ctx.undecided("R-RES4", f"{avp.qual}.load", avp.where(ld), "reader loop not recognised", key="loop")
+            break
+        loop, paths, idx, obj = lp
+        done = [p_ for p_ in paths if p_.term in ("fall", "continue")
+                and not any(isinstance(c[0], tuple) and c[0][0] == "exc" and c[0][1] == "IndexError" for c in p_.conds)]
+        if not done:
+            ctx.undecided("R-RES4", f"{avp.qual}.load", avp.where(ld), "no completing path", key=f"res:{r}")
+        adv = set()
+        for p_ in done:
             n_inst += 1
-            p = env.get("padding", UNK)
-            if p is UNK or not isinstance(p, int):
-                ctx.undecided("R-RES4", f"{avp.qual}.load", avp.where(ld), f"residue {r}: reader padding not evaluable", key=f"res:{r}")
+            d = sym.add(p_.get(idx), sym.add(I, L), -1)
+            adv.add(d if sym.is_int(d) else sym.show(p_.get(idx)))
+        for d in sorted(adv, key=str):
+            if not sym.is_int(d):
+                ctx.violate("R-RES4/advance", f"{avp.qual}.load", avp.where(loop),
+                            f"reader advances the index to `{d}` instead of start + length + padding", key="advance")
                 continue
-            ctx.decide((r + p) % 4 == 0 and 0 <= p < 4, "R-RES4", f"{avp.qual}.load", avp.where(pstmts[0] if pstmts else ld),
-                       f"AVP length%4={r}: reader skips {p}",
-                       f"for AVP length % 4 == {r} the reader skips {p} padding octets: the next AVP is parsed at a "
+            ctx.decide((r + d) % 4 == 0 and 0 <= d < 4, "R-RES4", f"{avp.qual}.load", avp.where(loop),
+                       f"AVP length%4={r}: reader skips {d}",
+                       f"for AVP length % 4 == {r} the reader skips {d} padding octets: the next AVP is parsed at a "
                        f"misaligned offset", key=f"res:{r}")
-    # the index advances by boundary + padding
-    adv = [s for s in loop.body if isinstance(s, ast.AugAssign) and isinstance(s.target, ast.Name) and s.target.id == "index"]
-    ok = len(adv) == 1 and ast.unparse(adv[0].value) in ("boundary + padding", "padding + boundary")
-    ctx.decide(ok, "R-RES4/advance", f"{avp.qual}.load", avp.where(ld), "index advances by length + padding",
-               f"reader advances the index by `{ast.unparse(adv[0].value) if adv else None}` instead of length + padding",
-               key="advance")
+    else:
+        ctx.hold("R-RES4/advance", f"{avp.qual}.load", avp.where(ld), "index advances by length + padding on every completing path",
+                 key="advance")
     ctx.count("residue_instances", n_inst)
 
 
@@ -506,56 +541,52 @@ def _message_length(ctx, repo, msg):
     ap = ctx.need(msg.methods.get("append"), "DiameterMessage.append")
     construct = f"{msg.qual}.append"
     pn = [a.arg for a in ap.args.args if a.arg != "self"][0]
-    # inside `if not self._loaded:` the new length depends on get_length() and get_padding_length() of the avp
-    blk = None
-    for n in walk_no_nested(ap):
-        if isinstance(n, ast.If) and ast.unparse(n.test) in ("not self._loaded", "not self.loaded", "self._loaded is False"):
-            blk = n
-    if blk is None:
-        ctx.undecided("R-FLOW/append-length", construct, msg.where(ap), "no `if not self._loaded` block", key="loaded")
-    else:
-        src = "\n".join(ast.unparse(s) for s in blk.body)
-        has_len = f"{pn}.get_length()" in src or f"len({pn})" in src
-        has_pad = f"{pn}.get_padding_length()" in src
-        stores = [s for s in ast.walk(blk) if isinstance(s, ast.Assign) and ast.unparse(s.targets[0]) == "self.header.length"]
-        ctx.decide(has_len and has_pad and bool(stores), "R-FLOW/append-length", construct, msg.where(blk),
-                   "Message Length grows by AVP length + padding",
-                   f"append updates the Message Length without {'the AVP length' if not has_len else 'the AVP padding' if not has_pad else 'storing it'}: "
-                   f"the length no longer equals the serialised size", key="append_len")
-        # abstractly: new = old + L + P
-        for L, P in ((12, None), (13, 3), (22, 2)):
-            def special(e, L=L, P=P):
-                t = ast.unparse(e)
-                if t == "self.header.get_length()":
-                    return 100
-                if t in (f"{pn}.get_length()", f"len({pn})"):
-                    return L
-                if t == f"{pn}.get_padding_length()":
-                    return P
-                return NotImplemented
-            stmts = list(blk.body)
-            # run_paths ignores attribute stores; emulate by rewriting `self.header.length = X` as `__len = X`
-            rew = []
-            for s in stmts:
-                rew.append(_rewrite_store(s, "self.header.length", "__len"))
-            for env2, term, val in run_paths(rew, {}, special, lambda e: repo.fold(msg.mod, e)):
-                got = env2.get("__len", UNK)
-                want = 100 + L + (P or 0)
-                if got is UNK:
-                    ctx.undecided("R-FLOW/append-length", construct, msg.where(blk),
-                                  "new Message Length not evaluable", key=f"append:{L}:{P}")
-                    continue
-                ctx.decide(got == want, "R-FLOW/append-length", construct, msg.where(blk),
-                           f"AVP length {L}, padding {P}: Message Length +{L + (P or 0)}",
-                           f"for an AVP of length {L} and padding {P} append sets the Message Length to old+{got - 100 if isinstance(got, int) else got} "
-                           f"instead of old+{L + (P or 0)}", key=f"append:{L}:{P}")
+    # on the terms of every completing path: a message that was not decoded gets old + L + P stored (3 octets), a decoded
+    # one keeps the length it had on the wire
+    OLD, Lx, Px = sym.S("int:old"), sym.S("int:L"), sym.S("int:P")
+
+    def run_append(pad):
+        def hook(t):
+            if t == ("call", ("attr", ("attr", ("name", "self"), "header"), "get_length"), (), ()):
+                return OLD
+            if t in (("call", ("attr", sym.S(pn), "get_length"), (), ()), ("call", ("name", "len"), (sym.S(pn),), ())):
+                return Lx
+            if t == ("call", ("attr", sym.S(pn), "get_padding_length"), (), ()):
+                return pad
+            return None
+        it = sym.Interp(fold=lambda e: repo.fold(msg.mod, e), hook=hook)
+        return it.run(strip_doc(ap.body), sym.PathState({pn: sym.S(pn)}, [], []))
+    n_unl = 0
+    for pad in (3, 1, 0):
+        for p_ in run_append(pad):
+            if p_.term == "raise":
+                continue
+            loaded = [tv for c, tv in p_.conds if sym.show(c) in ("self._loaded", "self.loaded")]
+            st_ = [e for e in p_.effects if e[0] == "store" and e[1] == "self.header.length"]
+            if loaded == [True]:
+                continue
+            n_unl += 1
+            if not st_:
+                ctx.violate("R-FLOW/append-length", construct, msg.where(ap), "append does not store a new Message Length for a message "
+                            "that was not decoded: the length no longer equals the serialised size", key="append_len")
+                continue
+            v = st_[-1][2]
+            arg = v[2][0] if isinstance(v, tuple) and v and v[0] == "call" and len(v[2]) == 1 else v
+            want = sym.add(sym.add(OLD, Lx), pad)
+            ctx.decide(arg == want, "R-FLOW/append-length", construct, msg.where(st_[-1][3]),
+                       f"padding {'present' if pad else 'absent'}: Message Length = old + AVP length{' + padding' if pad else ''}",
+                       f"for an AVP {'with' if pad else 'without'} padding append sets the Message Length to `{sym.show(arg)}` instead of "
+                       f"old + AVP length{' + padding' if pad else ''}: the length no longer equals the serialised size",
+                       key=f"append:pad{pad}")
+    if n_unl == 0:
+        ctx.undecided("R-FLOW/append-length", construct, msg.where(ap), "no path for a message that was not decoded", key="loaded")
     # refresh
     rf = ctx.need(msg.methods.get("refresh"), "DiameterMessage.refresh")
-    init = [s for s in rf.body if isinstance(s, ast.Assign) and isinstance(s.targets[0], ast.Name)]
+    init = sorted([s for s in walk_no_nested(rf) if isinstance(s, ast.Assign) and isinstance(s.targets[0], ast.Name)], key=lambda n: n.lineno)
     start = repo.fold(msg.mod, init[0].value) if init else None
     ctx.decide(start == 20, "R-FLOW/refresh", f"{msg.qual}.refresh", msg.where(rf), "refresh starts from the 20-octet header",
                f"refresh starts the total from {start}, the header is 20 octets", key="refresh_start")
-    loop = next((s for s in rf.body if isinstance(s, ast.For)), None)
+    loop = next((s for s in walk_no_nested(rf) if isinstance(s, ast.For)), None)
     ok = False
     if loop is not None and init:
         acc = init[0].targets[0].id
